@@ -63,10 +63,12 @@ def reach(sm):
     out = {}
     queue = []
     roots = sm.get("roots") or {}
+    REACH_TYPES.clear()
     for op in ("query", "mutation", "subscription"):
         r = roots.get(op)
         if r and M.kind_of(sm, r) == "object" and r not in out:
             out[r] = (op, [])
+            REACH_TYPES[r] = [r]
             queue.append(r)
     while queue:
         name = queue.pop(0)
@@ -79,13 +81,32 @@ def reach(sm):
         for f, target in hops:
             if M.kind_of(sm, target) in ("object", "interface", "union") and target not in out:
                 out[target] = (op, path + [f["name"] + _args_text(sm, f)])
+                REACH_TYPES[target] = REACH_TYPES[name] + [target] + [M.named(a["type"]) for a in f.get("args") or () if _required(a)]
                 queue.append(target)
         if t["kind"] in ("interface", "union"):
             for m in possible(sm, name):
                 if m not in out:
                     out[m] = (op, path + ["... on " + m])
+                    REACH_TYPES[m] = REACH_TYPES[name] + [m]
                     queue.append(m)
     return out
+
+
+REACH_TYPES = {}  # filled by reach(): composite type -> type names along the path to it
+
+
+def input_closure(sm, name):
+    """name + every type reachable through input object fields."""
+    seen, todo = [], [name]
+    while todo:
+        n = todo.pop()
+        if n in seen:
+            continue
+        seen.append(n)
+        t = M.get_type(sm, n)
+        if t and t["kind"] == "input":
+            todo.extend(M.named(f["type"]) for f in t["fields"])
+    return seen
 
 
 def wrap(op, path, inner, header="", opdirs=""):
@@ -96,15 +117,21 @@ def wrap(op, path, inner, header="", opdirs=""):
     return ("%s%s%s { %s }" % (head, header, opdirs, s)).strip()
 
 
+USES = {}  # filled by gen_ops(): operation text -> names of the types / "@directives" it touches
+
+
 def gen_ops(sm):
-    """deterministic list of (tag, operation text)."""
+    """deterministic list of (tag, operation text); USES[text] = schema elements the operation touches."""
     ops = []
     seen = set()
+    uses_of = USES
+    uses_of.clear()
 
-    def add(tag, text):
+    def add(tag, text, uses=()):
         if text not in seen:
             seen.add(text)
             ops.append((tag, text))
+            uses_of[text] = sorted(set(uses))
 
     R = reach(sm)
     field_dirs = [d for d in sm.get("directives") or () if "FIELD" in d["locations"]]
@@ -120,19 +147,30 @@ def gen_ops(sm):
             uses.append("@%s(%s)" % (d["name"], ", ".join(parts)))
         return uses
 
+    all_dir_uses = []
+    for d in sm.get("directives") or ():
+        all_dir_uses.append("@" + d["name"])
+        for a in d.get("args") or ():
+            all_dir_uses.extend(input_closure(sm, M.named(a["type"])))
     for name, (op, path) in R.items():
         t = M.get_type(sm, name)
+        base_uses = list(REACH_TYPES.get(name, [name]))
         if t["kind"] == "union":
-            add("typename", wrap(op, path, "__typename"))
+            add("typename", wrap(op, path, "__typename"), base_uses)
         for f in t.get("fields") or ():
             sub = _subsel(sm, f)
-            add("field", wrap(op, path, f["name"] + _args_text(sm, f) + sub))
+            fu = base_uses + [M.named(f["type"])]
+            for a in f.get("args") or ():
+                if _required(a):
+                    fu = fu + input_closure(sm, M.named(a["type"]))
+            add("field", wrap(op, path, f["name"] + _args_text(sm, f) + sub), fu)
             for a in f.get("args") or ():
                 at = a["type"]
-                add("arg-literal", wrap(op, path, f["name"] + _args_text(sm, f, (a["name"], _lit(sm, at))) + sub))
+                au = fu + input_closure(sm, M.named(at))
+                add("arg-literal", wrap(op, path, f["name"] + _args_text(sm, f, (a["name"], _lit(sm, at))) + sub), au)
                 if M.parse_type(at)[0] != "nn":
-                    add("arg-null", wrap(op, path, f["name"] + _args_text(sm, f, (a["name"], "null")) + sub))
-                add("arg-variable", wrap(op, path, f["name"] + _args_text(sm, f, (a["name"], "$v")) + sub, header="($v: %s)" % at))
+                    add("arg-null", wrap(op, path, f["name"] + _args_text(sm, f, (a["name"], "null")) + sub), au)
+                add("arg-variable", wrap(op, path, f["name"] + _args_text(sm, f, (a["name"], "$v")) + sub, header="($v: %s)" % at), au)
                 if not _required(a):
                     # a nullable variable may flow into a position that has a default
                     pass
@@ -141,21 +179,21 @@ def gen_ops(sm):
                 if k == "enum":
                     for v in M.get_type(sm, inner_t)["values"]:
                         lit = M.sdl_value(sm, at, v["name"] if "[" not in at else [v["name"]])
-                        add("enum-literal", wrap(op, path, f["name"] + _args_text(sm, f, (a["name"], lit)) + sub))
+                        add("enum-literal", wrap(op, path, f["name"] + _args_text(sm, f, (a["name"], lit)) + sub), au)
                 if k == "input":
                     for lit in input_literals(sm, inner_t):
                         if "[" in at:
                             lit = "[" + lit + "]"
-                        add("input-literal", wrap(op, path, f["name"] + _args_text(sm, f, (a["name"], lit)) + sub))
+                        add("input-literal", wrap(op, path, f["name"] + _args_text(sm, f, (a["name"], lit)) + sub), au)
             if f is t["fields"][0] and not path:
                 # FIELD-location directives: every use form, on the first field of each root type
                 for d in field_dirs:
                     for use in dir_uses(d):
-                        add("directive-field", wrap(op, path, f["name"] + _args_text(sm, f) + " " + use + sub))
+                        add("directive-field", wrap(op, path, f["name"] + _args_text(sm, f) + " " + use + sub), fu + all_dir_uses)
         if t["kind"] in ("interface", "union"):
             for m in [o["name"] for o in sm["types"] if o["kind"] == "object"]:
                 if m in possible(sm, name):
-                    add("fragment", wrap(op, path, "... on %s { __typename }" % m))
+                    add("fragment", wrap(op, path, "... on %s { __typename }" % m), base_uses + [m])
     # operation-level and fragment-level directive locations
     roots = sm.get("roots") or {}
     for op in ("query", "mutation", "subscription"):
@@ -164,17 +202,21 @@ def gen_ops(sm):
             continue
         first = M.get_type(sm, r)["fields"][0]
         base = first["name"] + _args_text(sm, first) + _subsel(sm, first)
-        add("root", wrap(op, [], base))
+        ru = [r, M.named(first["type"])]
+        for a in first.get("args") or ():
+            if _required(a):
+                ru += input_closure(sm, M.named(a["type"]))
+        add("root", wrap(op, [], base), ru)
         for d in sm.get("directives") or ():
             for use in dir_uses(d):
                 if EXEC_OP_LOC[op] in d["locations"]:
-                    add("directive-operation", wrap(op, [], base, opdirs=" " + use))
+                    add("directive-operation", wrap(op, [], base, opdirs=" " + use), ru + all_dir_uses)
                 if "INLINE_FRAGMENT" in d["locations"]:
-                    add("directive-inline", wrap(op, [], "... %s { %s }" % (use, base)))
+                    add("directive-inline", wrap(op, [], "... %s { %s }" % (use, base)), ru + all_dir_uses)
                 if "FRAGMENT_SPREAD" in d["locations"]:
-                    add("directive-spread", wrap(op, [], "...Fr " + use) + " fragment Fr on %s { %s }" % (r, base))
+                    add("directive-spread", wrap(op, [], "...Fr " + use) + " fragment Fr on %s { %s }" % (r, base), ru + all_dir_uses)
                 if "FRAGMENT_DEFINITION" in d["locations"]:
-                    add("directive-fragdef", wrap(op, [], "...Fr") + " fragment Fr on %s %s { %s }" % (r, use, base))
+                    add("directive-fragdef", wrap(op, [], "...Fr") + " fragment Fr on %s %s { %s }" % (r, use, base), ru + all_dir_uses)
     return ops
 
 
